@@ -31,6 +31,8 @@ pub enum H {
     GetTime { t: u64, assoc: u16, value: Option<u64> },
     Op { t: u64, index: usize },
     Other { t: u64, assoc: u16, what: String },
+    /// the master's transport reader handed this fragment to the application layer (exact processing point)
+    MasterRx { t: u64, src: u16, bytes: Vec<u8> },
     File { t: u64, id: u64, what: String, block: u32, len: usize, content_ok: bool, detail: String },
 }
 
@@ -56,6 +58,7 @@ impl H {
             | H::GetTime { t, .. }
             | H::Op { t, .. }
             | H::File { t, .. }
+            | H::MasterRx { t, .. }
             | H::Other { t, .. } => *t,
         }
     }
@@ -136,6 +139,9 @@ pub fn history(case: &SmastCase, run: &MastRun) -> Vec<(u64, H)> {
             MEv::AbsTime { assoc, t: v } => H::Other { t: *t, assoc: *assoc, what: format!("abs-time {}", v) },
         };
         out.push((*order, h));
+    }
+    for (t, order, src, bytes) in &run.master_rx {
+        out.push((*order, H::MasterRx { t: *t, src: *src, bytes: bytes.clone() }));
     }
     for (i, t, order) in &run.op_marks {
         out.push((*order, H::Op { t: *t, index: *i }));
